@@ -160,6 +160,20 @@ func orcTrigger(s *orcStep, prop string) string {
 		}
 		return false
 	}
+	if (c.Kind == "create" || (c.Kind == "set" && t < 0)) && !k.Edge && len(k.Obj) > 1 {
+		// a new object under an existing container that this file / board does not own
+		for i := len(k.Obj) - 1; i >= 1; i-- {
+			if p := pre.findObj(k.Obj[:i]); p >= 0 {
+				if foreignUp(p) {
+					return "parent-container-imported"
+				}
+				if nested && pre.Objs[p].Inherited {
+					return "parent-container-inherited-from-base-board"
+				}
+				break
+			}
+		}
+	}
 	if t >= 0 {
 		if foreignUp(t) {
 			return "target-imported"
@@ -291,6 +305,18 @@ func orcTrigger(s *orcStep, prop string) string {
 		}
 		if !gen.IsPlain(last) && !strings.EqualFold(last, own) {
 			return "new-name-needs-quoting"
+		}
+	}
+	// --- rename-like Move of a container whose child's name is taken one level up ------------
+	if c.Kind == "move" && t >= 0 && !c.Desc && len(nk.Obj) == len(k.Obj) && orcPathKey(nk.Obj[:len(nk.Obj)-1]) == orcPathKey(k.Obj[:len(k.Obj)-1]) {
+		for _, ch := range pre.children(t) {
+			for _, sib := range pre.children(pre.Objs[t].Parent) {
+				if sib != t && strings.EqualFold(pre.Objs[sib].IDVal, pre.Objs[ch].IDVal) {
+					// MoveIDDeltas computes hoisting conflicts whenever !includeDescendants, also
+					// for a move within the same container, where the children stay with the object
+					return "same-container-move-of-container-whose-child-name-is-taken-in-parent"
+				}
+			}
 		}
 	}
 	// --- special shapes ----------------------------------------------------------------
